@@ -180,17 +180,20 @@ class Ctx:
         return 1 if new_v else 0
 
 
-def renamed(ctx, mapping):
+def renamed(ctx, mapping, skip=None):
     """A view of `ctx` under which a rule table of another property reports with this property's rule ids
-    (`mapping`: foreign rule id -> own rule id).  Shares all state with `ctx`."""
+    (`mapping`: foreign rule id -> own rule id).  Shares all state with `ctx`.  `skip(key)`: obligations of the foreign
+    table that are not necessary conditions of this property are left to their owner."""
     base = type(ctx)
 
     class _Renamed(base):
         def rule(s, rid, text):
             return base.rule(s, mapping.get(rid, rid), text)
 
-        def ob(s, rid, *a, **k):
-            return base.ob(s, mapping.get(rid, rid), *a, **k)
+        def ob(s, rid, ok, key, *a, **k):
+            if skip is not None and skip(key):
+                return ok
+            return base.ob(s, mapping.get(rid, rid), ok, key, *a, **k)
 
         def floor(s, rid, *a, **k):
             return base.floor(s, mapping.get(rid, rid), *a, **k)
